@@ -65,6 +65,8 @@ func main() {
 			cs := chainsim.StdCases(r.Seed, r.Pick(192, 2400), r.Pick(60, 120), []string{"hostile", "default", "hostile", "registry"})
 			// Key manager traffic (fees of key manager transactions, CHURP stake claims).
 			cs = chainsim.WithExtraCases(cs, r.Seed, r.Pick(12, 150), "keymanager")
+			// VRF beacon backend (fees of proof transactions, elections by VRF proofs).
+			cs = chainsim.WithExtraCases(cs, r.Seed, r.Pick(6, 150), "vrf")
 			for i := range cs {
 				if !r.Quick() || i%4 == 0 {
 					cs[i].Mode = "taps"
